@@ -5,6 +5,7 @@ import (
 
 	"github.com/jsightapi/jsight-schema-core/errs"
 	"github.com/jsightapi/jsight-schema-core/notations/jschema/ischema"
+	"github.com/jsightapi/jsight-schema-core/notations/jschema/ischema/constraint"
 )
 
 // CheckRecursion checks that given schema doesn't have invalid recursions.
@@ -127,7 +128,10 @@ func (c *recursionChecker) check(node ischema.Node, types map[string]ischema.Typ
 	case *ischema.ObjectNode:
 		c.objects++
 		defer func() { c.objects-- }()
-		for _, n := range node.Children() {
+		for i, n := range node.Children() {
+			if !isRequiredProperty(node, i, n) {
+				continue
+			}
 			if err := c.check(n, types); err != nil {
 				return err
 			}
@@ -138,6 +142,30 @@ func (c *recursionChecker) check(node ischema.Node, types map[string]ischema.Typ
 	}
 
 	return nil
+}
+
+// isRequiredProperty tells whether the i-th property of the object has to be
+// present in every instance. The `optional` rule decides when it is written;
+// otherwise the default of the schema does, which the compiler has recorded in
+// the required keys of the object (a schema may be created with keys that are
+// optional by default: then a property without the rule is not a required link).
+func isRequiredProperty(node *ischema.ObjectNode, i int, child ischema.Node) bool {
+	if c := child.Constraint(constraint.OptionalConstraintType); c != nil {
+		if bk, ok := c.(constraint.BoolKeeper); ok {
+			return !bk.Bool()
+		}
+	}
+	rk, ok := node.Constraint(constraint.RequiredKeysConstraintType).(*constraint.RequiredKeys)
+	if !ok || rk == nil {
+		return false
+	}
+	key := node.Key(i).Key
+	for _, k := range rk.Keys() {
+		if k == key {
+			return true
+		}
+	}
+	return false
 }
 
 func (c *recursionChecker) checkMixedValueNode(
